@@ -173,6 +173,13 @@ class ServeMultiPeriodManifest(RequestHandlerBase):
         except ValueError as e:
             logging.info('Invalid CGI parameters: %s', e)
             return flask.make_response('Invalid CGI parameters', 400)
+        if not current_mps.periods:
+            return flask.make_response('This stream has no Periods', 404)
+        for period in current_mps.periods:
+            if period.stream is None or period.stream.timing_reference is None:
+                return flask.make_response(
+                    f'Period {html.escape(period.pid)}: timing reference of its stream has not been configured',
+                    404)
         dash = ManifestContext(
             manifest=current_manifest, options=options, stream=None,
             multi_period=current_mps)
